@@ -15,16 +15,24 @@ def build(b):
     b.mkdir("R/z")
 
 
-def seal(b, sym, spelling, nested):
-    kw = {}
+def root_argument(spelling):
     if spelling == "trailing-slash":
-        rootarg = dict(root="R/")
-    elif spelling == "relative":
-        rootarg = dict(root="R", cwd="")
-    elif spelling == "dot":
-        rootarg = dict(root=".", cwd="R")
-    else:
-        rootarg = dict(root="R")
+        return dict(root="R/")
+    if spelling == "relative":
+        return dict(root="R", cwd="")
+    if spelling == "dot":
+        return dict(root=".", cwd="R")
+    if spelling == "dot-slash":
+        return dict(root="./R", cwd="")
+    if spelling == "slash-dot":
+        return dict(root="R/.", cwd="")
+    if spelling == "dotdot":
+        return dict(root="..", cwd="R/d")
+    return dict(root="R")
+
+
+def seal(b, sym, spelling, nested):
+    rootarg = root_argument(spelling)
     if nested:
         for c in ("R/B", "R/AB", "R/C", "R/A"):
             r = b.run("create", root=c, h=["md5"])
@@ -34,6 +42,17 @@ def seal(b, sym, spelling, nested):
     b.require(r.exit == 0 and r.exc is None, "create-exit-0", "%s %s" % (rootarg, r))
     r = b.run("create", h=["md5"], **rootarg)
     b.require(r.exit == 0 and r.exc is None, "create-exit-0", "second: %s %s" % (rootarg, r))
+
+
+def rename_phase(b, spelling):
+    """a recorded rename, then verify / diff with the same spelling of the root argument"""
+    rootarg = root_argument(spelling)
+    b.rename("R/a.txt", "R/d/a renamed.txt")
+    r = b.run("create", h=["md5"], dr=True, **rootarg)
+    b.require(r.exit == 0 and r.exc is None, "create-exit-0", "create -dr: %s %s" % (rootarg, r))
+    for cmd in ("verify", "diff"):
+        r = b.run(cmd, **rootarg)
+        b.require(r.exit == 0 and r.exc is None, "relocated-copy-verifies", "%s after a recorded rename with root given as %s: %s | %s" % (cmd, rootarg, r, (r.err + r.out)[:3]))
 
 
 def collect(b, nested):
@@ -51,7 +70,7 @@ def scenario(tier):
         nested = sym.flag("nested_histories")
         loc = sym.choose("location", LOCATIONS)
         order = sym.choose("enumeration_order", ORDERS)
-        spelling = sym.choose("root_spelling", ["absolute", "trailing-slash", "relative", "dot"])
+        spelling = sym.choose("root_spelling", ["absolute", "trailing-slash", "relative", "dot", "dot-slash", "slash-dot", "dotdot"])
         # canonical run: /mnt, sorted enumeration, absolute root
         if b.real:
             b.listing = "sorted"
@@ -85,8 +104,19 @@ def scenario(tier):
                     b.require(r.exit == 0 and r.exc is None, "relocated-copy-verifies", "%s: %s %s -> %s" % (tag, cmd, kw, r))
             finally:
                 b3.close()
-        finally:
+            # third generation: a recorded rename, in both worlds; still byte-identical
+            rename_phase(b2, spelling)
+            got = collect(b2, nested)
             b2.close()
+            b2 = None
+            rename_phase(b, "absolute")
+            ref = collect(b, nested)
+            b.require(sorted(got) == sorted(ref), "same-files-written", "%s after a recorded rename: %s vs %s" % (tag, sorted(got), sorted(ref)))
+            for f in sorted(ref):
+                b.require(truth(b.same_bytes(ref[f], got[f])), "byte-identical", "%s after a recorded rename: %s differs" % (tag, f))
+        finally:
+            if b2 is not None:
+                b2.close()
     return fn
 
 
@@ -94,7 +124,7 @@ def harnesses(tier):
     return [Harness("c13-location-order", scenario(tier), frontier=6, budget_s=2400,
                     what="same tree (flat or with 4 sibling nested histories) sealed twice under the same clock at /mnt with sorted enumeration and at "
                          "one of 7 adversarial locations (ancestor named 'ascmhl', '.DS_Store', matching the user pattern *.tmp, spaces/non-ASCII) x 4 "
-                         "enumeration orders x 4 spellings of the root argument: all manifests and chains byte-identical; relocated copy verifies",
-                    bounds={"locations": LOCATIONS, "enumeration orders": ORDERS, "root spellings": ["absolute", "trailing slash", "relative to cwd", "'.' from inside"]},
+                         "enumeration orders x 7 spellings of the root argument: all manifests and chains byte-identical; relocated copy verifies",
+                    bounds={"locations": LOCATIONS, "enumeration orders": ORDERS, "root spellings": ["absolute", "trailing slash", "relative to cwd", "'.' from inside", "./R", "R/.", "'..' from a sub-folder"]},
                     outside=["arbitrary location strings (7 adversarial representatives are enumerated; the match argument no longer contains the location)",
                              "arbitrary permutations (4 representative orders per directory)", "symlinked locations"])]
